@@ -33,6 +33,18 @@
 //! a step the connection is dead (as in `Client::run`); the harness reconnects
 //! the way the `Client::new` documentation prescribes: new sockets, new server
 //! connection, `client.state()` and the target carried over.
+//!
+//! Events: `U<S>` update to set S (diff retained) · `X<S>` update, diff
+//! history dropped (thorough) · `D` drop diffs · `R` restart (new session) ·
+//! `W` serial := 2^32-1 (the next update wraps to 0) · `N` notify · `S` client
+//! step · `C<k>` client step during which the connection dies after k PDUs of
+//! the response (an exchange that does NOT complete must not look completed).
+//! Roots: 7 initial client states x client initial version {0,1,2} x proxy
+//! limit {0,1,2}. Both tiers run until the frontier is empty (fixpoint of the
+//! canonical state space); the thorough tier has the larger space (two diff
+//! styles, 3 retained diffs, the answer-lower proxy, `X` events). A wall-clock
+//! safety net stops before a level that would not fit the budget; such a run
+//! is reported as not exhaustive with the depth that was completed.
 
 use std::cell::RefCell;
 use std::collections::{BTreeMap, BTreeSet, HashSet};
@@ -215,9 +227,6 @@ fn timing_of(set: u8) -> (u32, u32, u32) { if set % 2 == 0 { T_EVEN } else { T_O
 #[derive(Clone, Copy, Debug, PartialEq, Eq, Hash, PartialOrd, Ord)]
 enum Style { Net, Chained }
 
-/// Longest retained diff chain (quick 2, thorough 3; set once in main).
-static CHAIN_CAP: std::sync::atomic::AtomicUsize = std::sync::atomic::AtomicUsize::new(2);
-fn chain_cap() -> usize { CHAIN_CAP.load(Ordering::Relaxed) }
 const SESSION0: u16 = 0x04D2;
 const RESTART_SERIAL: u32 = 1000;
 
@@ -233,6 +242,8 @@ struct SrcInner {
     /// 0 = serial far below the wrap, 1 = serial is 2^32-1, 2 = wrapped.
     epoch: u8,
     style: Style,
+    /// longest retained diff chain
+    cap: usize,
     collision: bool,
 }
 
@@ -245,7 +256,7 @@ impl SrcInner {
     fn update(&mut self, set: u8, keep_diff: bool) {
         if keep_diff {
             self.chain.push(self.cur);
-            if self.chain.len() > chain_cap() { self.chain.remove(0); }
+            if self.chain.len() > self.cap { self.chain.remove(0); }
         } else {
             self.chain.clear();
         }
@@ -598,21 +609,22 @@ const ROOT_SETS: [u8; 3] = [6, 1, 7];
 const ROOT_SERIAL0: u32 = 100;
 
 #[derive(Clone, Copy, Debug, PartialEq, Eq, Hash, PartialOrd, Ord)]
-struct Cfg { civ: u8, limit: u8, mode: ProxyMode, style: Style, init: Init }
+struct Cfg { civ: u8, limit: u8, mode: ProxyMode, style: Style, cap: u8, init: Init }
 
 impl Cfg {
     fn render(&self) -> String {
-        format!("civ={} limit={} proxy={} style={} init={}", self.civ, self.limit,
+        format!("civ={} limit={} proxy={} style={} cap={} init={}", self.civ, self.limit,
             match self.mode { ProxyMode::ErrorReply => "error", ProxyMode::AnswerLower => "lower" },
-            match self.style { Style::Net => "net", Style::Chained => "chained" }, self.init.name())
+            match self.style { Style::Net => "net", Style::Chained => "chained" }, self.cap, self.init.name())
     }
     fn parse(s: &str) -> Option<(Cfg, Vec<Ev>)> {
-        let mut civ = None; let mut limit = None; let mut mode = None; let mut style = None; let mut init = None; let mut hist = None;
+        let mut civ = None; let mut limit = None; let mut cap = Some(2u8); let mut mode = None; let mut style = None; let mut init = None; let mut hist = None;
         for tok in s.split_whitespace() {
             let (k, v) = tok.split_once('=')?;
             match k {
                 "civ" => civ = v.parse().ok(),
                 "limit" => limit = v.parse().ok(),
+                "cap" => cap = v.parse().ok(),
                 "proxy" => mode = match v { "error" => Some(ProxyMode::ErrorReply), "lower" => Some(ProxyMode::AnswerLower), _ => None },
                 "style" => style = match v { "net" => Some(Style::Net), "chained" => Some(Style::Chained), _ => None },
                 "init" => init = INITS.iter().copied().find(|i| i.name() == v),
@@ -624,7 +636,7 @@ impl Cfg {
                 _ => return None,
             }
         }
-        Some((Cfg { civ: civ?, limit: limit?, mode: mode?, style: style?, init: init? }, hist?))
+        Some((Cfg { civ: civ?, limit: limit?, mode: mode?, style: style?, cap: cap?, init: init? }, hist?))
     }
 }
 
@@ -679,7 +691,7 @@ fn witness(cfg: &Cfg, h: &[Ev]) -> String { format!("{} hist={}", cfg.render(), 
 
 /// At most this many Serial Notify PDUs may sit unread in the pipe (a third
 /// one cannot change what the next client step does: two already make it fail).
-static MAX_PENDING_NOTIFY: std::sync::atomic::AtomicUsize = std::sync::atomic::AtomicUsize::new(2);
+const MAX_PENDING_NOTIFY: usize = 2;
 
 /// Where the connection may die inside a response (PDUs delivered).
 const CUTS: [u8; 3] = [1, 2, 3];
@@ -695,7 +707,7 @@ fn enabled(abs: &Abs, with_nodiff_updates: bool) -> Vec<Ev> {
     if abs.chain_len > 0 { v.push(Ev::DropDiffs) }
     v.push(Ev::Restart);
     if abs.epoch == 0 { v.push(Ev::Wrap) }
-    if abs.pending < MAX_PENDING_NOTIFY.load(Ordering::Relaxed) { v.push(Ev::Notify) }
+    if abs.pending < MAX_PENDING_NOTIFY { v.push(Ev::Notify) }
     v.push(Ev::Step);
     for k in CUTS { v.push(Ev::StepCut(k)) }
     v
@@ -743,7 +755,7 @@ enum ConnK {
 ///   retained entries can never be asked for again, since the client's state
 ///   only ever moves to the source's current state; for the same reason the
 ///   retained depth itself is irrelevant: a client k behind falls out of
-///   range after cap-k further updates whatever the depth), and on
+///   range after cap-k further updates (cap = `Cfg::cap`) whatever the depth), and on
 ///   `epoch` (where the serial stands relative to the 2^32 wrap; this is
 ///   the "serial class": the absolute session id and serial are otherwise
 ///   opaque tokens to client, server and source — they are compared for
@@ -761,7 +773,7 @@ enum ConnK {
 /// key is taken, so no half-read stream can hide behind a key.
 #[derive(Clone, Debug, PartialEq, Eq, Hash)]
 struct Key {
-    cfg: (u8, u8, ProxyMode, Style),
+    cfg: (u8, u8, ProxyMode, Style, u8),
     cur: u8,
     epoch: u8,
     pos: Pos,
@@ -864,7 +876,7 @@ fn initial_source(cfg: &Cfg) -> SrcInner {
     let mut s = SrcInner {
         session: SESSION0, serial: ROOT_SERIAL0 + 2, cur: ROOT_SETS[2],
         chain: if cfg.init == Init::TwoBehindNoDiffs { vec![ROOT_SETS[1]] } else { vec![ROOT_SETS[0], ROOT_SETS[1]] },
-        record: BTreeMap::new(), epoch: 0, style: cfg.style, collision: false,
+        record: BTreeMap::new(), epoch: 0, style: cfg.style, cap: cfg.cap as usize, collision: false,
     };
     for (k, set) in ROOT_SETS.iter().enumerate() { s.record.insert((SESSION0, ROOT_SERIAL0 + k as u32), *set); }
     s
@@ -933,7 +945,7 @@ fn compute_key(cfg: &Cfg, src: &Source, conn: &Conn) -> (Key, Abs, Vec<String>) 
         ConnK::Established { query_version: q, answer_version: a, timing: conn.client.target().reported_timing }
     };
     let key = Key {
-        cfg: (cfg.civ, cfg.limit, cfg.mode, cfg.style), cur: s.cur, epoch: s.epoch, pos,
+        cfg: (cfg.civ, cfg.limit, cfg.mode, cfg.style, cfg.cap), cur: s.cur, epoch: s.epoch, pos,
         data: conn.client.target().data.clone(), conn: connk, pending: pending.clone(),
     };
     let abs = Abs { cur: s.cur, chain_len: s.chain.len(), epoch: s.epoch, pending: pending.len() };
@@ -1182,8 +1194,6 @@ fn main() {
     ctx.assume("the version-limited peer is played by a proxy in front of the real server: it answers a too-high first query with Error Report code 4 in its own version (mode error) or answers in its own lower version (mode lower)");
 
     let thorough = ctx.tier.is_thorough();
-    CHAIN_CAP.store(ctx.tier.pick(2, 3), Ordering::Relaxed);
-    MAX_PENDING_NOTIFY.store(ctx.tier.pick(2, 3), Ordering::Relaxed);
 
     // ---- replay of a single recorded case ----
     if let Some((_oracle, wit)) = ctx.replay.clone() {
@@ -1210,20 +1220,24 @@ fn main() {
     // is a safety net that turns the run into a non-exhaustive one.
     let depth_bound: usize = std::env::var("C06_DEPTH").ok().and_then(|s| s.parse().ok()).unwrap_or(40);
     let wall_cap = Duration::from_secs(ctx.tier.pick(34, 560));
-    let with_nodiff_updates = true;
+    // update_nodiff(S) is update(S) followed by drop_diffs: it adds no
+    // reachable state, only shorter paths; the quick tier leaves it out.
+    let with_nodiff_updates = thorough;
 
     // ---- configurations ----
-    let styles: Vec<Style> = if thorough { vec![Style::Chained, Style::Net] } else { vec![Style::Chained] };
+    // (diff style, longest retained diff chain). Net diffs depend only on the
+    // two end points, so the longer chain is spent on the chained style.
+    let styles: Vec<(Style, u8)> = if thorough { vec![(Style::Chained, 3), (Style::Net, 2)] } else { vec![(Style::Chained, 2)] };
     let mut vconfigs: Vec<(u8, u8, ProxyMode)> = Vec::new();
     for civ in 0..=2u8 { for limit in 0..=2u8 { vconfigs.push((civ, limit, ProxyMode::ErrorReply)) } }
-    for civ in 0..=2u8 { for limit in 0..civ { vconfigs.push((civ, limit, ProxyMode::AnswerLower)) } }
+    if thorough { for civ in 0..=2u8 { for limit in 0..civ { vconfigs.push((civ, limit, ProxyMode::AnswerLower)) } } }
     let mut roots: Vec<Cfg> = Vec::new();
-    for &style in &styles { for &(civ, limit, mode) in &vconfigs { for &init in &INITS {
-        roots.push(Cfg { civ, limit, mode, style, init });
+    for &(style, cap) in &styles { for &(civ, limit, mode) in &vconfigs { for &init in &INITS {
+        roots.push(Cfg { civ, limit, mode, style, cap, init });
     }}}
 
     let sp = ctx.space("rtr.histories",
-        "breadth-first over event histories {update(S), update_nodiff(S) for the 7 other sets of an 8-set family, drop_diffs, restart, wrap, notify, client_step, client_step with the connection dying after 1/2/3 response PDUs} from every root (7 initial client states x client initial version 0..2 x proxy limit 0..2 [+ answer-lower proxy where civ > limit] x diff style), states de-duplicated by canonical key, every transition re-executed on the real Client and Server; non-trivial = transitions whose client step completed (Ok) AND changed the client's state or data (each (state, event) pair is executed once, so they are distinct by construction)");
+        "breadth-first over event histories {update(S) [thorough: + update_nodiff(S)] for the 7 other sets of an 8-set family, drop_diffs, restart, wrap, notify, client_step, client_step with the connection dying after 1/2/3 response PDUs} from every root (7 initial client states x client initial version 0..2 x proxy limit 0..2 [thorough: + answer-lower proxy where civ > limit] x diff style [thorough: chained with 3 retained diffs, net with 2; quick: chained with 2]), states de-duplicated by canonical key, every transition re-executed on the real Client and Server; non-trivial = transitions whose client step completed (Ok) AND changed the client's state or data (each (state, event) pair is executed once, so they are distinct by construction)");
 
     let start = WallInstant::now();
     let mut st = Stats { transitions: 0, executions: 0, nontrivial: 0, outcomes: BTreeMap::new(),
@@ -1355,7 +1369,7 @@ fn main() {
     let total_ok: u64 = st.ok_by_pair.values().sum();
     if total_ok == 0 { ctx.machinery_error("vacuous: no client step succeeded anywhere") }
     for &(civ, limit, mode) in &vconfigs {
-        let c = Cfg { civ, limit, mode, style: styles[0], init: Init::NoState };
+        let c = Cfg { civ, limit, mode, style: styles[0].0, cap: styles[0].1, init: Init::NoState };
         let p = pair_name(&c);
         if st.ok_by_pair.get(&p).copied().unwrap_or(0) == 0 {
             ctx.machinery_error(format!("vacuous: no client step succeeded for {p}"));
@@ -1380,9 +1394,9 @@ fn main() {
     sp.set("levels(depth,transitions,new_states)", json!(level_sizes));
     sp.set("roots", json!(roots.len()));
     sp.set("version_configs", json!(vconfigs.iter().map(|(c, l, m)| format!("{c}/{l}/{m:?}")).collect::<Vec<_>>()));
-    sp.set("diff_styles", json!(styles.iter().map(|s| format!("{s:?}")).collect::<Vec<_>>()));
+    sp.set("diff_styles(style, retained chain)", json!(styles.iter().map(|s| format!("{:?}/{}", s.0, s.1)).collect::<Vec<_>>()));
     sp.set("events", json!(["U<S> update (diff retained)", "X<S> update (diff history dropped)", "D drop diffs", "R restart (new session)", "W serial := 2^32-1", "N notify", "S client step", "C<k> client step, connection dies after k PDUs of the response"]));
-    sp.set("bounds", json!({"retained_diff_chain": chain_cap(), "pending_notifies": MAX_PENDING_NOTIFY.load(Ordering::Relaxed), "simulated_horizon_s": HORIZON.as_secs()}));
+    sp.set("bounds", json!({"pending_notifies": MAX_PENDING_NOTIFY, "connection_cut_after_pdus": CUTS, "simulated_horizon_s": HORIZON.as_secs()}));
     sp.set("distinct_outcomes(step transcripts)", json!(st.transcripts.len()));
     sp.set("ok_steps_by_version_config", json!(st.ok_by_pair));
     sp.set("ok_steps_with_downgrade", json!(st.downgrade_ok_by_pair));
